@@ -41,6 +41,7 @@ pub fn plan() -> Plan {
         quick_histories: 1500,
         thorough_histories: 400000,
         s5: None,
+        enumerate_session_end: None,
     }
 }
 
